@@ -8,12 +8,12 @@
                     counter of the triangulation overflows, an abort under overflow checks; see C09).
    dense b s F    : every window of F+1 consecutive days, in both directions, holds a day that is a
                     business day and a settlement day; F is the bound of every day-by-day search.
-   KnownGap j     : j holds a NamedCal document whose name NamedCal::try_new rejects, or is an FXRates
-                    document whose data FXRates::try_new rejects / that lists no currency / whose quotes hold an
-                    ill-shaped Dual or Dual2 (F4; the last one is F5 inside F4: ndarray then aborts in the dual
-                    arithmetic of the reconstruction, which is outside the modelled domain), or loads
-                    into a value violating a relation a derived Deserialize does not check (F5:
-                    |dual| vs |vars|, dual2 dims, n vs |t|-k, |c| vs n, knot order, node-key order).
+   doc_small j    : if j is an FXRates document, the market it describes has at most 181 currencies
+                    (same bound as entry_small; every other document is small: C20_small_other).
+                    The loader mirrors the repaired code: serde(try_from) reconstructions of NamedCal and
+                    FXRates (fix bca0987) and validating data models for Dual, Dual2, PPSpline and curve
+                    nodes (fix e8eeeaf); the documents that aborted / loaded ill-shaped values on the
+                    pinned tree are rejected (C20_load_rejects).
    shapeb v       : the full shape invariant of the loaded value (Model/Entry.v). *)
 From Coq Require Import ZArith List Bool String.
 From RL Require Import Base.Num Base.Str Base.Outcome Model.Dates Model.Calendar Model.Named
@@ -55,29 +55,25 @@ Theorem C20_dates_total : forall hols mask c, cal_new hols mask = Ok c -> has_wo
     cal_roll c d m s <> Panic /\ cal_add_months c d k m r s <> Panic.
 Proof. exact c20_dates_total. Qed.
 
-Theorem C20_load : forall (T : Type) (H : Num T) (j : json T), ~ KnownGap j ->
+Theorem C20_load : forall (T : Type) (H : Num T) (j : json T), doc_small j ->
   from_json_model j <> Panic /\ forall v, from_json_model j = Ok v -> shapeb v = true.
 Proof. exact c20_load. Qed.
+
+Theorem C20_small_other : forall (T : Type) (H : Num T) (j : json T),
+  (forall v rest, j <> JObj ((KStr k_FXRates, v) :: rest)) -> doc_small j.
+Proof. exact c20_small_other. Qed.
 
 Theorem C20_load_total_with_try_from : forall (T : Type) (H : Num T) rn rf,
   (forall s, rn s <> Panic) -> (forall d, rf d <> Panic) -> forall j : json T, dec_obj rn rf j <> Panic.
 Proof. exact c20_load_total_with_try_from. Qed.
 
-Theorem C20_named_rebuild_total : forall s, rebuild_named_try s <> Panic.
+Theorem C20_named_rebuild_total : forall s, rebuild_named s <> Panic.
 Proof. exact c20_named_rebuild_total. Qed.
 
-Theorem C20_load_refuted_named : forall (T : Type) (H : Num T),
-  KnownGap (doc_named_bad (T:=T)) /\ from_json_model (doc_named_bad (T:=T)) = Panic.
-Proof. exact c20_load_refuted_named. Qed.
-
-Theorem C20_load_refuted_fx : forall (T : Type) (H : Num T),
-  KnownGap (doc_fx_empty (T:=T)) /\ from_json_model (doc_fx_empty (T:=T)) = Panic.
-Proof. exact c20_load_refuted_fx. Qed.
-
-Theorem C20_load_refuted_shape : forall (T : Type) (H : Num T),
-  KnownGap (doc_dual_short (T:=T)) /\
-  exists v, from_json_model (doc_dual_short (T:=T)) = Ok v /\ shapeb v = false.
-Proof. exact c20_load_refuted_shape. Qed.
+Theorem C20_load_rejects : forall (T : Type) (H : Num T),
+  from_json_model (doc_named_bad (T:=T)) = Err /\ from_json_model (doc_fx_empty (T:=T)) = Err /\
+  from_json_model (doc_dual_short (T:=T)) = Err.
+Proof. exact c20_load_rejects. Qed.
 
 (* ------------------------------------------------------------------ spline solving (partial)
    csolve (Model/Entry.v, on Model/Spline.v + Model/Linalg.v): the two validations return errors and a
@@ -114,7 +110,6 @@ Print Assumptions C20_dates_total.
 Print Assumptions C20_load.
 Print Assumptions C20_load_total_with_try_from.
 Print Assumptions C20_named_rebuild_total.
-Print Assumptions C20_load_refuted_named.
-Print Assumptions C20_load_refuted_fx.
-Print Assumptions C20_load_refuted_shape.
+Print Assumptions C20_small_other.
+Print Assumptions C20_load_rejects.
 Print Assumptions C20_csolve_partial.
